@@ -11,6 +11,8 @@ pub mod c05;
 pub mod c06;
 #[cfg(feature = "c10")]
 pub mod c10;
+#[cfg(feature = "c14")]
+pub mod c14;
 
 /// One marker harness per cargo feature, so that the driver can tell which
 /// kani-metadata.json belongs to which feature set.
